@@ -1,10 +1,189 @@
-(* C04 — see manifest.d/C04.json: what is proved for the scheduler model so far is
-   the lifecycle invariant (Props/C01.v); this file restates the part of it that
-   C04 relies on, so that the check of C04 fails when the model or that proof breaks.
-   The property itself is decided by the correspondence and the direct oracle of
-   harness/drivers/c04.py on every run. *)
-From Hio Require Import Base.Prelude Base.AMap Base.Time Model.Sched Proofs.SchedLife Proofs.SchedTop.
+(* C04 — nesting doers inside a tock-0 DoDoer is observationally transparent.
 
+   FULL STATEMENT (properties.jsonl):  for every static doer forest and every way of
+   regrouping consecutive siblings into tock-0, non-always DoDoers,
+       leaf_view (do_run (grouped program)) = leaf_view (do_run (flat program)).
+   It is FALSE of the faithful model and of the code (open finding D35): inside a
+   DoDoer the asap branch of recur bases the next due tyme on tyme + DoDoer.tock
+   (= tyme), in the Doist on tyme + doist.tock; a grouped doer that yields None/0
+   and LATER a positive tock is re-run one root tock early.
+
+   What is proved here (Model/Sched.v, frozen; proofs in Proofs/SchedFlat*.v):
+   * C04_flatten_refuted (Theorem, Z) / C04_flatten_refuted_float (Example) : the witness of findings.d/C04.json, in exact
+     (Z) time and bit-exact in binary64.
+   * C04_flatten_partial : ONE level of grouping (a flat list of root leaves and a
+     partition of consecutive runs into DoDoers of tock z0, always = false), any
+     Time instance satisfying three laws (reflexivity of <=, the root tock moves
+     time forward, |z0| is a right unit of +), arbitrary static scripts (any kinds,
+     yielded tocks, completion points and return values), any limit, any start
+     tyme: if no GROUPED leaf yields an asap tock (None/0) and later a positive one
+     (tock yielded at enter excepted: the scheduler discards it), the two runs have the same leaf view:
+     leaf and root events with tymes in order (enter order, (doer,tyme) recur
+     steps, clean/exit at completion, forced cease/exit order), done flags of the
+     leaves and of the Doist, final tyme.  Fuel: both runs are assumed not to run
+     out of fuel or cycles (oof = false); budgets may differ.
+   * C04_flatten_partial_Z : the instance for exact time, tock >= 0, z0 = 0, with no
+     law hypotheses left.
+   * C04_run_spec : do_run of any such grouped program (no hypothesis on tocks)
+     computes the fuel-free structural specification spec_run — the model-side half
+     of the argument, usable on its own.
+
+   NOT proved (covered only by the correspondence + oracle of harness/drivers/c04.py):
+   * grouping at depth > 1 (a DoDoer inside a DoDoer) — the driver nests up to depth 3;
+   * programs with extend/remove or raising doers (outside the quantifier of C04);
+   * binary64 time: the three laws fail for nan only, but the theorem is stated for
+     instances satisfying them and is instantiated at Z; the driver compares
+     bit-exact floats on every case;
+   * explicit sufficient fuel budgets (the hypothesis oof = false is checked by
+     vm_compute in the examples and is part of check_case in the correspondence). *)
+From Coq Require Import PrimFloat.
+From Hio Require Import Base.Prelude Base.AMap Base.Time Model.Sched
+  Proofs.SchedFlatDefs Proofs.SchedFlatRun Proofs.SchedFlatSim Proofs.SchedFlatTop.
+
+(* ---------- the refutation: D35 ---------- *)
+
+Definition yz (t : option Z) : fstep Z := {| f_es := []; f_out := OYield t |}.
+Definition wz1 : leaf Z := {| lf_id := 1%N; lf_kind := KDoer; lf_script := [yz None; yz (Some 0%Z); yz (Some 7%Z)] |}.
+Definition wz2 : leaf Z := {| lf_id := 2%N; lf_kind := KDoer; lf_script := [yz None] |}.
+Definition wz_group : list (gitem Z) := [GGroup 3%N [wz1; wz2]].
+
+(* root tock 3, start 105; leaf 1 yields 0 at 105 and 7 at 108: flat re-run at 117, grouped at 114 *)
+Theorem C04_flatten_refuted :
+  exists (tk t0 z0 : Z) (gs : list (gitem Z)) (cycles fuel : nat),
+    wf_group gs /\
+    oof (do_run cycles fuel (nest_prog tk None t0 z0 gs)) = false /\
+    oof (do_run cycles fuel (flat_prog tk None t0 (flatten gs))) = false /\
+    leaf_view (map lf_id (flatten gs)) (do_run cycles fuel (nest_prog tk None t0 z0 gs)) <>
+    leaf_view (map lf_id (flatten gs)) (do_run cycles fuel (flat_prog tk None t0 (flatten gs))).
+Proof.
+  exists 3%Z, 105%Z, 0%Z, wz_group, 50%nat, 100%nat.
+  split; [|split; [vm_compute; reflexivity|split; [vm_compute; reflexivity|]]].
+  - split; [|reflexivity]. repeat constructor; cbn; intuition discriminate.
+  - intro E. apply (f_equal snd) in E. vm_compute in E. discriminate.
+Qed.
+Print Assumptions C04_flatten_refuted.
+
+(* the same, bit-exact in binary64: the witness of findings.d/C04.json
+   (root tock 0.3, start 10.5, yields None, 0.0, 0.7) *)
+Definition yf (t : option float) : fstep float := {| f_es := []; f_out := OYield t |}.
+Definition wf1 : leaf float :=
+  {| lf_id := 1%N; lf_kind := KDoer; lf_script := [yf None; yf (Some 0%float); yf (Some 0x1.6666666666666p-1%float)] |}.
+Definition wf2 : leaf float := {| lf_id := 2%N; lf_kind := KDoer; lf_script := [yf None] |}.
+Definition wf_group_f : list (gitem float) := [GGroup 3%N [wf1; wf2]].
+
+Definition final_tyme_differs (a b : st float) : bool := negb (float_same (tyme a) (tyme b)).
+
+Example C04_flatten_refuted_float :
+  let nested := do_run 50 100 (nest_prog 0x1.3333333333333p-2%float None 10.5%float 0%float wf_group_f) in
+  let flat := do_run 50 100 (flat_prog 0x1.3333333333333p-2%float None 10.5%float (flatten wf_group_f)) in
+  oof nested = false /\ oof flat = false /\
+  leaf_view [1%N; 2%N] nested <> leaf_view [1%N; 2%N] flat.
+Proof.
+  cbv zeta. split; [vm_compute; reflexivity|split; [vm_compute; reflexivity|]].
+  intro E.
+  apply (f_equal (fun v => PrimFloat.eqb (snd v)
+    (tyme (do_run 50 100 (flat_prog 0x1.3333333333333p-2%float None 10.5%float (flatten wf_group_f)))))) in E.
+  vm_compute in E. discriminate.
+Qed.
+(* (an Example, not a Theorem: it computes with Coq's primitive binary64 operations, which
+   Print Assumptions lists as primitives) *)
+
+(* ---------- the positive theorem ---------- *)
+
+Theorem C04_flatten_partial :
+  forall (T : Type) (TT : Time T) (tk : T) (limit : option T) (t0 z0 : T)
+         (gs : list (gitem T)) (c1 f1 c2 f2 : nat),
+    flat_laws tk z0 ->
+    wf_group gs ->
+    forallb no_asap_then_positive (grouped_leaves gs) = true ->
+    oof (do_run c1 f1 (nest_prog tk limit t0 z0 gs)) = false ->
+    oof (do_run c2 f2 (flat_prog tk limit t0 (flatten gs))) = false ->
+    leaf_view (map lf_id (flatten gs)) (do_run c1 f1 (nest_prog tk limit t0 z0 gs)) =
+    leaf_view (map lf_id (flatten gs)) (do_run c2 f2 (flat_prog tk limit t0 (flatten gs))).
+Proof. intros. now apply flatten_run. Qed.
+Print Assumptions C04_flatten_partial.
+
+Lemma flat_laws_Z (tk : Z) : (0 <= tk)%Z -> flat_laws tk 0%Z.
+Proof.
+  intro Hk. split; [|split]; cbn.
+  - intro a. apply Z.leb_refl.
+  - intros a b Hab. apply Z.leb_le in Hab. apply Z.leb_le. lia.
+  - intro a. lia.
+Qed.
+
+Theorem C04_flatten_partial_Z :
+  forall (tk : Z) (limit : option Z) (t0 : Z) (gs : list (gitem Z)) (c1 f1 c2 f2 : nat),
+    (0 <= tk)%Z ->
+    wf_group gs ->
+    forallb no_asap_then_positive (grouped_leaves gs) = true ->
+    oof (do_run c1 f1 (nest_prog tk limit t0 0%Z gs)) = false ->
+    oof (do_run c2 f2 (flat_prog tk limit t0 (flatten gs))) = false ->
+    leaf_view (map lf_id (flatten gs)) (do_run c1 f1 (nest_prog tk limit t0 0%Z gs)) =
+    leaf_view (map lf_id (flatten gs)) (do_run c2 f2 (flat_prog tk limit t0 (flatten gs))).
+Proof. intros. apply flatten_run; auto using flat_laws_Z. Qed.
+Print Assumptions C04_flatten_partial_Z.
+
+(* the model-side half: the grouped run computes the structural specification *)
+Theorem C04_run_spec :
+  forall (T : Type) (TT : Time T) (tk : T) (limit : option T) (t0 z0 : T)
+         (gs : list (gitem T)) (cycles fuel : nat),
+    wf_group gs ->
+    oof (do_run cycles fuel (nest_prog tk limit t0 z0 gs)) = false ->
+    exists r, spec_run tk (tabs z0) cycles limit t0 gs = Some r /\
+              leaf_view (map lf_id (flatten gs)) (do_run cycles fuel (nest_prog tk limit t0 z0 gs)) =
+              view_of (map lf_id (flatten gs)) r.
+Proof. intros. now apply nest_run_spec. Qed.
+Print Assumptions C04_run_spec.
+
+(* ---------- a concrete program satisfying the hypotheses ---------- *)
+
+Definition rz (r : ret) : fstep Z := {| f_es := []; f_out := OReturn r |}.
+(* root tock 2; five leaves of all kinds: positive tocks below/above/equal to the root tock,
+   then asap tocks, returns of every kind, one leaf that returns at enter, one that outlives the limit *)
+Definition ea : leaf Z := {| lf_id := 1%N; lf_kind := KFunc; lf_script := [yz (Some 0%Z); yz (Some 3%Z); yz (Some 1%Z); yz None; yz (Some 0%Z); rz RFalse] |}.
+Definition eb : leaf Z := {| lf_id := 2%N; lf_kind := KDoer; lf_script := [yz None; yz (Some 5%Z); yz (Some 2%Z); yz None] |}.
+Definition ec : leaf Z := {| lf_id := 3%N; lf_kind := KDoerGen; lf_script := [rz RNone] |}.
+Definition ed : leaf Z := {| lf_id := 4%N; lf_kind := KDoerGen; lf_script := [yz (Some 7%Z); yz (Some 4%Z); yz (Some 4%Z); yz (Some 0%Z); yz None; yz None; yz None; yz None; yz None; yz None; yz None; yz None; yz None; yz None] |}.
+Definition ee : leaf Z := {| lf_id := 5%N; lf_kind := KFunc; lf_script := [yz None; yz None; rz RTrue] |}.
+Definition ef : leaf Z := {| lf_id := 6%N; lf_kind := KDoer; lf_script := [yz None; yz (Some 2%Z)] |}.
+Definition ex_group : list (gitem Z) := [GLeaf ee; GGroup 10%N [ea; eb]; GGroup 11%N [ec]; GGroup 12%N [ed; ef]].
+
+Example C04_example_hyps :
+  wf_group ex_group /\
+  forallb no_asap_then_positive (grouped_leaves ex_group) = true /\
+  oof (do_run 40 200 (nest_prog 2%Z None 10%Z 0%Z ex_group)) = false /\
+  oof (do_run 30 100 (flat_prog 2%Z None 10%Z (flatten ex_group))) = false /\
+  oof (do_run 40 200 (nest_prog 2%Z (Some 9%Z) 10%Z 0%Z ex_group)) = false /\
+  oof (do_run 30 100 (flat_prog 2%Z (Some 9%Z) 10%Z (flatten ex_group))) = false.
+Proof.
+  split; [|repeat split; vm_compute; reflexivity].
+  split; [|reflexivity]. repeat constructor; cbn; intuition discriminate.
+Qed.
+
+(* the conclusion on that program, by the theorem (not by computation), to completion and to a limit *)
+Example C04_example_use :
+  leaf_view (map lf_id (flatten ex_group)) (do_run 40 200 (nest_prog 2%Z None 10%Z 0%Z ex_group)) =
+  leaf_view (map lf_id (flatten ex_group)) (do_run 30 100 (flat_prog 2%Z None 10%Z (flatten ex_group))) /\
+  leaf_view (map lf_id (flatten ex_group)) (do_run 40 200 (nest_prog 2%Z (Some 9%Z) 10%Z 0%Z ex_group)) =
+  leaf_view (map lf_id (flatten ex_group)) (do_run 30 100 (flat_prog 2%Z (Some 9%Z) 10%Z (flatten ex_group))).
+Proof.
+  destruct C04_example_hyps as (W & Hy & O1 & O2 & O3 & O4).
+  split; apply C04_flatten_partial_Z; auto; lia.
+Qed.
+
+(* the example is not trivial: both runs are long, leaves are force-closed under the limit *)
+Example C04_example_nontrivial :
+  length (fst (fst (leaf_view (map lf_id (flatten ex_group)) (do_run 40 200 (nest_prog 2%Z None 10%Z 0%Z ex_group))))) = 46%nat /\
+  existsb (fun e => match e_kind e with Cease => true | _ => false end)
+          (trace (do_run 40 200 (nest_prog 2%Z (Some 9%Z) 10%Z 0%Z ex_group))) = true.
+Proof. split; vm_compute; reflexivity. Qed.
+
+(* the refutation witness violates exactly the hypothesis on tocks *)
+Example C04_witness_excluded : forallb no_asap_then_positive (grouped_leaves wz_group) = false.
+Proof. reflexivity. Qed.
+
+(* the lifecycle invariant that the argument relies on (Props/C01.v) still holds for every run *)
+From Hio Require Import Proofs.SchedLife Proofs.SchedTop.
 Theorem C04_lifecycles_core :
   forall (T : Type) (TT : Time T) (cycles fuel : nat) (p : prog T) (j : id),
     life_ok (get_gen (do_run cycles fuel p) j) (events j (do_run cycles fuel p)).
